@@ -602,10 +602,13 @@ Again:
 	if err := b.readFromUntil(c.conn, recordHeaderLen); err != nil {
 		// RFC suggests that EOF without an alertCloseNotify is
 		// an error, but popular web sites seem to do this,
-		// so we can't make it an error.
-		// if err == io.EOF {
-		// 	err = io.ErrUnexpectedEOF
-		// }
+		// so we can't make it an error: it is accepted if and
+		// only if it happens at a record boundary. An EOF after
+		// a part of the record header is a truncated record,
+		// exactly like an EOF inside the record body below.
+		if err == io.EOF && len(b.data) > 0 {
+			err = io.ErrUnexpectedEOF
+		}
 		if e, ok := err.(net.Error); !ok || !e.Temporary() {
 			c.in.setErrorLocked(err)
 		}
